@@ -66,6 +66,7 @@ func (e *Enc) call(fr *Frame, x *ssa.Call, st *State) {
 			stopped := e.yieldStopped(st)
 			e.call0(fr, x, st)
 			e.setYield(st, e.tb.Ite(isY, e.tb.Fresh("yieldstopped", "Bool"), e.yieldStopped(st)), e.tb.Or(e.yieldBad(st), e.tb.And(isY, stopped)))
+			e.setYieldCount(st, e.tb.Ite(isY, e.tb.Fresh("yieldcount", "Int"), e.yieldCount(st)))
 			e.modelled("a callee that is handed the `yields` callback calls it only during the call and never after it returned false (protocol of the callee, assumed)")
 			return
 		}
@@ -93,6 +94,64 @@ func (e *Enc) havocYield(st *State) {
 		return
 	}
 	e.setYield(st, e.tb.Fresh("yieldstopped", "Bool"), e.tb.Fresh("yieldbad", "Bool"))
+	e.setYieldCount(st, e.tb.Fresh("yieldcount", "Int"))
+}
+
+// number of calls of the `yields` callback so far (for checking the unit's own `iterates` summary)
+func (e *Enc) yieldCountReg() *regInfo {
+	return e.ghostReg("$yieldcount", "Int", "Int", types.Typ[types.Int])
+}
+func (e *Enc) yieldCount(st *State) *Term {
+	return e.tb.Select(e.reg(st, e.yieldCountReg()), e.tb.Int(0))
+}
+func (e *Enc) setYieldCount(st *State, n *Term) {
+	r := e.yieldCountReg()
+	e.setReg(st, r, e.tb.Store(e.reg(st, r), e.tb.Int(0), n))
+}
+
+// yieldArgsObligation: the unit declares `iterates <param> count N args A1, A2` for the callback it `yields`: this call
+// of the callback is call number yieldcount() and must pass exactly the arguments the summary states for that index.
+func (e *Enc) yieldArgsObligation(fr *Frame, x *ssa.Call, st *State, isY *Term, args []Val) {
+	con := e.topCon()
+	if con == nil || con.iter == nil || con.iter.param != e.yieldName || e.yieldEnv == nil || con.opts["iterates-checked"] != "true" {
+		return
+	}
+	tb := e.tb
+	env := e.yieldEnv(st)
+	n := e.yieldCount(st)
+	env.vars["cbidx"] = SV{t: n, typ: types.Typ[types.Int]}
+	goal := tb.True()
+	if cnt, err := env.evalAny(con.iter.count); err == nil && cnt.t != nil && cnt.t.sort == "Int" {
+		goal = tb.Lt(n, cnt.t)
+	} else {
+		e.contractError(fr, "iterates", fmt.Errorf("count: %v", err))
+		return
+	}
+	if len(args) != len(con.iter.args) {
+		goal = tb.False()
+	} else {
+		for i, ax := range con.iter.args {
+			sv, err := env.evalAny(ax)
+			if err != nil || sv.t == nil {
+				e.contractError(fr, "iterates", fmt.Errorf("argument %d: %v", i, err))
+				return
+			}
+			a := args[i].t()
+			if sv.t.sort != a.sort {
+				if a.sort == "Iface" {
+					sv.t = tb.Box(e.typeKey(sv.typ), e.sortOf(sv.typ), sv.t)
+				} else {
+					e.contractError(fr, "iterates", fmt.Errorf("argument %d has sort %s, the summary states %s", i, a.sort, sv.t.sort))
+					return
+				}
+			}
+			goal = tb.And(goal, tb.Eq(a, sv.t))
+		}
+	}
+	s2 := st.clone()
+	s2.reach = tb.And(st.reach, isY)
+	q := e.oblige("protocol", e.yieldName+"-called-as-summarised", &s2, goal, x.Pos(), e.inputVals()...)
+	q.Text = "call number yieldcount() of " + e.yieldName + " passes the arguments of the summary `iterates " + con.iter.text + "` for cbidx == yieldcount(), and yieldcount() < count"
 }
 
 func (e *Enc) call0(fr *Frame, x *ssa.Call, st *State) {
@@ -614,6 +673,8 @@ func (e *Enc) dynamicCall(fr *Frame, x *ssa.Call, st *State, args []Val) {
 		// the new state
 		isY := e.tb.Eq(f.t(), e.yieldParam)
 		stopped, bad := e.yieldStopped(st), e.yieldBad(st)
+		cnt := e.yieldCount(st)
+		e.yieldArgsObligation(fr, x, st, isY, args)
 		res := e.havocResults(fr, x, "yield")
 		for _, a := range args {
 			e.markEscaped(a.t(), 0)
@@ -624,6 +685,7 @@ func (e *Enc) dynamicCall(fr *Frame, x *ssa.Call, st *State, args []Val) {
 			now = e.tb.Not(res[0])
 		}
 		e.setYield(st, e.tb.Ite(isY, now, stopped), e.tb.Or(bad, e.tb.And(isY, stopped)))
+		e.setYieldCount(st, e.tb.Ite(isY, e.tb.Add(cnt, e.tb.Int(1)), cnt))
 		return
 	}
 	e.note("dynamic call without type contract: " + c.Value.Type().String())
